@@ -158,6 +158,7 @@ func (s *Store) persist(higher Snapshot, persistOptions StorePersistOptions) (
 	prevFooter := s.footer
 	s.footer = footer
 	s.totPersists++
+	verifTrace("store.persist.swap", s)
 	s.m.Unlock()
 
 	s.histograms["PersistUsecs"].Add(
@@ -279,6 +280,7 @@ func (s *Store) startFileLOCKED() (*FileRef, File, error) {
 	if err = s.persistHeader(file); err != nil {
 		file.Close()
 
+		verifOnRemove(path.Join(s.dir, fname))
 		os.Remove(path.Join(s.dir, fname))
 
 		return nil, nil, err
@@ -321,6 +323,7 @@ func (s *Store) removeFileOnClose(fref *FileRef) (os.FileInfo, error) {
 				s.m.Lock()
 				delete(s.fileRefMap, fileName)
 				s.m.Unlock()
+				verifOnRemove(path.Join(s.dir, fileName))
 				err := os.Remove(path.Join(s.dir, fileName))
 				if err != nil {
 					if s.options.CollectionOptions.Log != nil {
@@ -746,6 +749,7 @@ func restoreCollection(co *CollectionOptions, storeFooter *Footer) (
 
 func removeFiles(dir string, fnames []string) error {
 	for _, fname := range fnames {
+		verifOnRemove(path.Join(dir, fname))
 		err := os.Remove(path.Join(dir, fname))
 		if err != nil {
 			return err
